@@ -22,7 +22,7 @@ Cons == {"c1", "omit"}
 Igns == {"i1", "omit"}
 Scals == {"e1", "omit"}             \* error-scaling dict (scale 0 on the edge that is invalid in g3)
 Slots == 1..3
-Pool == {"g1", "g2", "g3", "o1", "o2", "s1", "c1", "i1", "e1"}
+Pool == {"g1", "g2", "g3", "o1", "o2", "s1", "c1", "i1", "e1", "t1"}   \* t1: list of trusted edges, passed to every class accepting one
 
 VARIABLES val,       \* pool object -> abstract value (initially the object's own name: "pristine")
           model,     \* slot -> [cls, g, o, s, c, i] or "none"
